@@ -57,14 +57,12 @@ impl FromStr for Sorter {
 
 fn read_to_eof<R: Read>(r: &mut Reader<R>) -> Result<String, SelectionParseError> {
     let mut chars = Vec::new();
-    loop {
-        if let Some(ch) = r.next()? {
-            chars.push(ch)
-        } else {
-            let str = String::from_utf8(chars)?;
-            return Ok(str.trim().to_string());
-        }
+    while let Some(ch) = r.peek()? {
+        chars.push(ch);
+        r.next()?;
     }
+    let str = String::from_utf8(chars)?;
+    Ok(str.trim().to_string())
 }
 
 impl Sorter {
